@@ -666,3 +666,37 @@ Proof. repeat split. Qed.
 Theorem run_render_ok_dims a e sz d : run_render a e sz = ROk d ->
   (0 < is_w d <= MAX_PIXMAP_W /\ 0 < is_h d <= U32_MAX)%Z.
 Proof. rewrite <- render_svg_is_skeleton. apply render_ok_dims. Qed.
+
+(* ---- round 5 (seed C20-16): --languages reaches usvg::Options::languages as written --------------------------------- *)
+Lemma opt_map_all_total {A B} (f : A -> B) (g : A -> option B) l :
+  (forall x, g x = Some (f x)) -> opt_map_all g l = Some (map f l).
+Proof. intro H. induction l as [|x r IH]; [reflexivity|]. cbn. rewrite H, IH. reflexivity. Qed.
+
+Theorem usvg_languages_unchanged arg :
+  cli_languages usvg_lang_separator usvg_lang_item_ops usvg_lang_all_items_kept usvg_lang_passed_unchanged arg = Some (spec_languages arg).
+Proof.
+  assert (H : forall x, lang_apply usvg_lang_item_ops x = Some (strim x)) by (intro; reflexivity).
+  unfold cli_languages, spec_languages.
+  change usvg_lang_all_items_kept with true. change usvg_lang_passed_unchanged with true. cbn [andb].
+  change usvg_lang_separator with ","%string. apply opt_map_all_total. exact H.
+Qed.
+
+Theorem resvg_languages_unchanged arg :
+  cli_languages resvg_lang_separator resvg_lang_item_ops resvg_lang_all_items_kept resvg_lang_passed_unchanged arg = Some (spec_languages arg).
+Proof.
+  assert (H : forall x, lang_apply resvg_lang_item_ops x = Some (strim x)) by (intro; reflexivity).
+  unfold cli_languages, spec_languages.
+  change resvg_lang_all_items_kept with true. change resvg_lang_passed_unchanged with true. cbn [andb].
+  change resvg_lang_separator with ","%string. apply opt_map_all_total. exact H.
+Qed.
+
+Lemma languages_faithful_flags :
+  lang_ops_faithful usvg_lang_separator usvg_lang_item_ops usvg_lang_all_items_kept usvg_lang_passed_unchanged = true /\
+  lang_ops_faithful resvg_lang_separator resvg_lang_item_ops resvg_lang_all_items_kept resvg_lang_passed_unchanged = true.
+Proof. split; vm_compute; reflexivity. Qed.
+
+(* case, duplicates and order are kept; blanks after commas are dropped *)
+Lemma languages_example :
+  cli_languages usvg_lang_separator usvg_lang_item_ops usvg_lang_all_items_kept usvg_lang_passed_unchanged "EN-us, de-DE,de-DE , zh-Hant"%string
+  = Some ["EN-us"; "de-DE"; "de-DE"; "zh-Hant"]%string.
+Proof. vm_compute. reflexivity. Qed.
